@@ -46,7 +46,7 @@ structure MemInv (s : State) : Prop where
   mem_head : ∀ q, isQ q → s.wr q = none → s.pnd q = false → s.next q = exp s q
   foreign : ∀ t q, isQ q → s.wr q = some t → s.lock q ≠ some t → s.next q = 0
   foreign_cnt : ∀ t q, isQ q → s.lock q ≠ some t → cnt (s.buf t) q ≤ 1
-  pnd_ok : ∀ a, s.pnd a = true → s.next a = 0 ∧ s.wr a = none ∧ s.lnx a ≠ 0
+  pnd_ok : ∀ a, s.pnd a = true → s.next a = 0 ∧ s.wr a = none ∧ s.lnx a ≠ 0 ∧ (isQ a ∨ s.inq a = true)
   tail_ok : ∀ q, isQ q → s.next (s.tail q) = 0 ∧ s.wr (s.tail q) = none ∧ s.pnd (s.tail q) = false
   empty_ok : ∀ q, isQ q → s.abs q = [] → s.hclr q = false
   hclr_q : ∀ q, s.hclr q = true → isQ q
@@ -101,7 +101,7 @@ def PcOk (s : State) (t : Nat) : Pc → Prop
   | .d2 q nd _ => Hd s t q nd ∧ s.hclr q = false
   | .d3 q nd _ => Hd s t q nd ∧ s.hclr q = false
   | .d4 q nd _ => Hd s t q nd ∧ s.hclr q = true
-  | .d6 q nd nxt => Hd s t q nd ∧ nxt ≠ 0 ∧ nxt = s.lnx nd
+  | .d6 q nd nxt => Hd s t q nd ∧ nxt ≠ 0 ∧ nxt = s.lnx nd ∧ s.pnd nd = false
   | .d7 q nd => Hd s t q nd ∧ s.hclr q = true
   | .s3 dst src _ => Cons s t src ∧ isQ dst ∧ dst ≠ src
   | .s4 dst src _ => Cons s t src ∧ isQ dst ∧ dst ≠ src
